@@ -132,6 +132,7 @@ pub fn func(name: &str, mut args: Vec<SimpleExpr>) -> FunctionCall {
         "Upper" => Func::upper(one(&mut args)),
         "BitAnd" => Func::bit_and(one(&mut args)),
         "BitOr" => Func::bit_or(one(&mut args)),
+        "Round" if args.len() == 2 => { let y = args.remove(1); Func::round_with_precision(args.remove(0), y) }
         "Round" => Func::round(one(&mut args)),
         "Md5" => Func::md5(one(&mut args)),
         "Random" => Func::random(),
@@ -143,6 +144,27 @@ pub fn func(name: &str, mut args: Vec<SimpleExpr>) -> FunctionCall {
             let y = args.remove(0);
             Func::if_null(x, y)
         }
+        // PostgreSQL text search helpers: case args are in SQL order [regconfig (u32 value)?, text]
+        "PgToTsquery" | "PgToTsvector" | "PgPhrasetoTsquery" | "PgPlaintoTsquery" | "PgWebsearchToTsquery" => {
+            use sea_query::extension::postgres::PgFunc;
+            let (cfg, text) = if args.len() == 2 {
+                let c = match &args[0] { SimpleExpr::Value(Value::Unsigned(Some(x))) => *x, other => panic!("case error: regconfig must be an Unsigned value, got {other:?}") };
+                (Some(c), args.remove(1))
+            } else { (None, one(&mut args)) };
+            match name {
+                "PgToTsquery" => PgFunc::to_tsquery(text, cfg),
+                "PgToTsvector" => PgFunc::to_tsvector(text, cfg),
+                "PgPhrasetoTsquery" => PgFunc::phraseto_tsquery(text, cfg),
+                "PgPlaintoTsquery" => PgFunc::plainto_tsquery(text, cfg),
+                _ => PgFunc::websearch_to_tsquery(text, cfg),
+            }
+        }
+        "PgTsRankCd" => { use sea_query::extension::postgres::PgFunc; let y = args.remove(1); PgFunc::ts_rank_cd(args.remove(0), y) }
+        "PgArrayAgg" => { use sea_query::extension::postgres::PgFunc; PgFunc::array_agg(one(&mut args)) }
+        "PgJsonAgg" => { use sea_query::extension::postgres::PgFunc; PgFunc::json_agg(one(&mut args)) }
+        "PgGenRandomUuid" => { use sea_query::extension::postgres::PgFunc; PgFunc::gen_random_uuid() }
+        "PgTsRank" => { use sea_query::extension::postgres::PgFunc; let y = args.remove(1); PgFunc::ts_rank(args.remove(0), y) }
+        "PgStartsWith" => { use sea_query::extension::postgres::PgFunc; let y = args.remove(1); PgFunc::starts_with(args.remove(0), y) }
         other => {
             if let Some(raw) = other.strip_prefix("Cust:") {
                 Func::cust(a(raw)).args(args)
@@ -256,6 +278,20 @@ fn expr_via_struct(j: &J) -> Option<SimpleExpr> {
                 _ => return None,
             }
         }
+        // constructors of the Expr struct for leaves
+        "kw" => match st(j, "w").as_str() {
+            "CurrentDate" => Expr::current_date().into(), "CurrentTime" => Expr::current_time().into(), "CurrentTimestamp" => Expr::current_timestamp().into(),
+            "Null" => return None,
+            other => Expr::custom_keyword(a(other)).into(),
+        },
+        "cust" => Expr::cust(st(j, "s")),
+        "tuple" => Expr::tuple(exprs(&j["es"])).into(),
+        "col" => match col_of(j) {
+            ColumnRef::Asterisk => Expr::asterisk().into(),
+            ColumnRef::TableAsterisk(t) => Expr::table_asterisk(t).into(),
+            c => Expr::col(c).into(),
+        },
+        "val" => Expr::val(to_value(&j["v"])).into(),
         _ => return None,
     })
 }
@@ -364,7 +400,10 @@ pub fn condition(j: &J) -> Condition {
             c = c.add(expr(m));
         }
     }
-    if j["neg"].as_bool().unwrap_or(false) {
+    if let Some(nn) = j.get("nn").and_then(|x| x.as_u64()) {
+        // "nn": not() is called that many times
+        for _ in 0..nn { c = c.not(); }
+    } else if j["neg"].as_bool().unwrap_or(false) {
         c = c.not();
     }
     c
